@@ -6,7 +6,7 @@ import sys
 V = os.path.dirname(os.path.dirname(os.path.abspath(__file__)))
 p = os.path.join(V, "DESIGN.md")
 s = open(p).read()
-for tag, tool in (("R2", "seeded_round2.py"), ("R3", "seeded_round3.py")):
+for tag, tool in (("R2", "seeded_round2.py"), ("R3", "seeded_round3.py"), ("R4", "seeded_round4.py")):
     b, e = "<!-- %s-TABLE-BEGIN -->" % tag, "<!-- %s-TABLE-END -->" % tag
     if b not in s or not os.path.exists(os.path.join(V, "seeded", "results_round%s.json" % tag[1])):
         continue
